@@ -71,7 +71,11 @@ def main():
         for p in props:
             env = dict(os.environ, VERIF_REPO=tree)
             t0 = time.time()
+            evf = ROOT / "evidence" / f"{p}.json"          # evidence must describe runs against /repo itself: keep it
+            keep = evf.read_text() if evf.exists() else None
             r = subprocess.run(["./check", p, "--tier", a.tier], cwd=ROOT, env=env, capture_output=True, text=True)
+            if keep is not None:
+                evf.write_text(keep)
             out = r.stdout + r.stderr
             viol = [l for l in out.splitlines() if l.startswith("VIOLATION") or l.startswith("KNOWN-FINDING")]
             why = [l for l in out.splitlines() if l.startswith("# ")]
